@@ -2610,3 +2610,311 @@ PROPS["C20"] = {
     "explanation": "theorems: setters_commute, setter_last_wins, setter_push_commute, setters_then_pushes (any interleaving of setter calls with pushes gives the same builder), pushes_eq_segments, parser_is_builder / builder_text_agree (the parser ends in build() of exactly that builder state, so acceptance and value coincide for implicitly numbered content), build_never_panics, built_numbering (gap-free, implicit = media_sequence + position, explicit preserved), master_parser_is_builder, master_build_never_panics; tag builders: C14; oracle: same acceptance and same observation for the three realisations of each content, numbering rule on explicit numbers, serialisation of every built value re-parses to its content",
     "assumptions": ["key histories are restricted to those the writer can express (recorded finding K3 is C03's subject)", "explicit numbers are in-domain up to 64 (a huge explicit number makes StableVec::reserve_for allocate that many slots)"],
 }
+
+
+# ------------------------------------------------------------------------------------------
+# C12 — presentation invariance (transformations written here, independently of the model)
+
+C12_ATTR_TAGS = ["#EXT-X-KEY:", "#EXT-X-MAP:", "#EXT-X-DATERANGE:", "#EXT-X-START:", "#EXT-X-MEDIA:", "#EXT-X-STREAM-INF:",
+                 "#EXT-X-I-FRAME-STREAM-INF:", "#EXT-X-SESSION-DATA:", "#EXT-X-SESSION-KEY:"]
+C12_HDR = ["#EXT-X-TARGETDURATION:", "#EXT-X-MEDIA-SEQUENCE:", "#EXT-X-ENDLIST", "#EXT-X-PLAYLIST-TYPE:", "#EXT-X-I-FRAMES-ONLY",
+           "#EXT-X-INDEPENDENT-SEGMENTS", "#EXT-X-START:"]
+C12_SEGTAG = ["#EXTINF:", "#EXT-X-BYTERANGE:", "#EXT-X-DISCONTINUITY", "#EXT-X-PROGRAM-DATE-TIME:", "#EXT-X-DATERANGE:"]
+C12_WS = [" ", "\t", "  ", " ", " ", "\x0b"]
+
+
+def c12_split_attrs(s):
+    """top-level split of an attribute list at commas outside double quotes; None when the quotes do not balance"""
+    out, cur, q = [], "", False
+    for ch in s:
+        if ch == '"':
+            q = not q
+        if ch == "," and not q:
+            out.append(cur); cur = ""
+        else:
+            cur += ch
+    if q:
+        return None
+    out.append(cur)
+    pairs = []
+    for p in out:
+        if "=" not in p:
+            return None
+        k, v = p.split("=", 1)
+        if k != k.strip() or v != v.strip() or not k or not v:
+            return None
+        pairs.append((k, v))
+    return pairs
+
+
+def c12_kind(line):
+    """coarse classification of a logical (trimmed, non-empty) line"""
+    if not line.startswith("#"):
+        return "uri"
+    if not line.startswith("#EXT"):
+        return "comment"
+    if line.startswith("#EXT-X-DISCONTINUITY-SEQUENCE:"):
+        return "dseq"
+    if line.startswith("#EXT-X-VERSION:"):
+        return "version"
+    for p in C12_HDR:
+        if line.startswith(p):
+            return "hdr:" + p
+    for p in C12_SEGTAG:
+        if line.startswith(p):
+            return "seg:" + p
+    if line.startswith("#EXT-X-KEY:"):
+        return "key"
+    if line.startswith("#EXT-X-MAP:"):
+        return "map"
+    for p in ["#EXT-X-MEDIA:", "#EXT-X-STREAM-INF:", "#EXT-X-I-FRAME-STREAM-INF:", "#EXT-X-SESSION-DATA:", "#EXT-X-SESSION-KEY:", "#EXTM3U"]:
+        if line.startswith(p):
+            return "m:" + p
+    return "unknown"
+
+
+def c12_attr_variant(rng, line, ops):
+    for p in C12_ATTR_TAGS:
+        if line.startswith(p):
+            pairs = c12_split_attrs(line[len(p):])
+            if pairs is None:
+                return line
+            names = [k for k, _ in pairs]
+            if "shuffle" in ops and len(set(names)) == len(names):
+                rng.shuffle(pairs)
+            if "unknown-attr" in ops:
+                for _ in range(rng.randint(1, 2)):
+                    pairs.insert(rng.randint(0, len(pairs)), (rng.choice(["FOO", "Y-NOT-CLIENT", "UNKNOWN-ATTR", "Z9", "BANDWIDTHX", "URI2"]),
+                                                             rng.choice(["1", '"a,b"', "YES", '"q=r"', "0x1", "NONE", '"METHOD=NONE"'])))
+            if "pad-attr" in ops:
+                w = lambda: rng.choice(["", "", " ", "\t", "  "])
+                return p + ",".join(w() + k + w() + "=" + w() + v + w() for k, v in pairs)
+            return p + ",".join(k + "=" + v for k, v in pairs)
+    return line
+
+
+def c12_logical(text):
+    """logical lines of a text: trimmed, non-empty (this is RFC 8216 section 4.1, not the model)"""
+    return [l.strip() for l in text.replace("\r\n", "\n").split("\n") if l.strip()]
+
+
+def c12_units(lines):
+    """group STREAM-INF with its URI"""
+    out, i = [], 0
+    while i < len(lines):
+        if lines[i].startswith("#EXT-X-STREAM-INF:") and i + 1 < len(lines):
+            out.append([lines[i], lines[i + 1]]); i += 2
+        else:
+            out.append([lines[i]]); i += 1
+    return out
+
+
+def c12_reorder_media(rng, lines, ops):
+    body = lines[1:]
+    kinds = [c12_kind(l) for l in body]
+    if "hdr-order" in ops:
+        hk = [k for k in kinds if k.startswith("hdr:")]
+        if len(set(hk)) == len(hk):
+            hdr = [l for l, k in zip(body, kinds) if k.startswith("hdr:")]
+            rest = [l for l, k in zip(body, kinds) if not k.startswith("hdr:")]
+            rng.shuffle(hdr)
+            for h in hdr:
+                rest.insert(rng.randint(0, len(rest)), h)
+            body = rest
+            kinds = [c12_kind(l) for l in body]
+    if "seg-order" in ops:
+        out, group = [], []
+        for l, k in zip(body, kinds):
+            if k == "uri":
+                gk = [c12_kind(x) for x in group]
+                # EXT-X-DISCONTINUITY-SEQUENCE must stay in front of EXT-X-DISCONTINUITY: only the part behind it moves
+                cut = max([i + 1 for i, y in enumerate(gk) if y == "dseq"] + [0])
+                head, group, gk = group[:cut], group[cut:], gk[cut:]
+                mov = [x for x, y in zip(group, gk) if y.startswith("seg:")]
+                mk_ = [y for y in gk if y.startswith("seg:")]
+                if len(set(mk_)) == len(mk_):
+                    fixed = [x for x, y in zip(group, gk) if not y.startswith("seg:")]
+                    rng.shuffle(mov)
+                    for m in mov:
+                        fixed.insert(rng.randint(0, len(fixed)), m)
+                    group = fixed
+                out += head + group + [l]
+                group = []
+            else:
+                group.append(l)
+        body = out + group
+    return [lines[0]] + body
+
+
+def c12_reorder_master(rng, lines, ops):
+    if "hdr-order" not in ops:
+        return lines
+    units = c12_units(lines[1:])
+
+    def kind(u):
+        k = c12_kind(u[0])
+        if k in ("m:#EXT-X-STREAM-INF:", "m:#EXT-X-I-FRAME-STREAM-INF:"):
+            return "variant"
+        return k
+    ks = [kind(u) for u in units]
+    for single in ("hdr:#EXT-X-INDEPENDENT-SEGMENTS", "hdr:#EXT-X-START:"):
+        if ks.count(single) > 1:
+            return lines
+    queues = {}
+    for u, k in zip(units, ks):
+        queues.setdefault(k, []).append(u)
+    order = ks[:]
+    rng.shuffle(order)
+    out = []
+    for k in order:
+        out += queues[k].pop(0)
+    return [lines[0]] + out
+
+
+def c12_layout(rng, lines, ops):
+    out = []
+    after_si = False
+    for ln in lines:
+        if not after_si and out:
+            if "comments" in ops and rng.random() < 0.3:
+                out.append(rng.choice(["# comment", "#", "## x", "#ext-lower", "#EX", "#comment with , = \" chars"]))
+            if "version" in ops and rng.random() < 0.2:
+                out.append("#EXT-X-VERSION:%d" % rng.randint(1, 7))
+        if out and "blank-lines" in ops and rng.random() < 0.3:
+            out.append(rng.choice(["", "   ", "\t", " "]))
+        after_si = ln.startswith("#EXT-X-STREAM-INF:")
+        if "pad-line" in ops and rng.random() < 0.5 and out:
+            ln = rng.choice(["", " ", "\t", "  "]) + ln + rng.choice(["", " ", "\t", " "])
+        out.append(ln)
+    if "version" in ops:
+        def valid(i):
+            j = i - 1
+            while j >= 0 and not out[j].strip():
+                j -= 1
+            return j >= 0 and not out[j].strip().startswith("#EXT-X-STREAM-INF:")
+        spots = [i for i in range(1, len(out) + 1) if valid(i)]
+        if spots:
+            out.insert(rng.choice(spots), "#EXT-X-VERSION:%d" % rng.randint(1, 7))
+    nl = "\r\n" if "crlf" in ops else "\n"
+    text = nl.join(out)
+    if "trailing" in ops:
+        text += rng.choice(["", nl, nl + nl, " " + nl + "\t", nl + "  "])
+    else:
+        text += nl
+    return text
+
+
+C12_OPS = ["shuffle", "unknown-attr", "pad-attr", "hdr-order", "seg-order", "comments", "version", "blank-lines", "pad-line", "crlf", "trailing"]
+
+
+def c12_variant(rng, base_lines, is_media, ops):
+    lines = [c12_attr_variant(rng, l, ops) for l in base_lines]
+    lines = c12_reorder_media(rng, lines, ops) if is_media else c12_reorder_master(rng, lines, ops)
+    return c12_layout(rng, lines, ops)
+
+
+def c12_insert_unknown(rng, base_lines):
+    units = c12_units(base_lines)
+    n = rng.randint(1, 3)
+    tags = []
+    for i in range(n):
+        t = rng.choice(["#EXT-X-FOO:%d" % i, "#EXT-UNKNOWN-%d" % i, "#EXT-X-CUSTOM-%d:A=1,B=\"x,y\"" % i, "#EXTX%d" % i])
+        tags.append(t)
+    pos = sorted(rng.randint(1, len(units)) for _ in tags)
+    out = []
+    ti = 0
+    for i, u in enumerate(units):
+        while ti < len(tags) and pos[ti] == i:
+            out.append(tags[ti]); ti += 1
+        out += u
+    out += tags[ti:]
+    return "\n".join(out) + "\n", tags
+
+
+def c12_build(ctx):
+    rng = ctx.rng
+    cases = []
+    bases = []
+    for t in corpus_texts():
+        bases.append(("media" if ("#EXTINF" in t or "TARGETDURATION" in t) else "master", t, "corpus"))
+    for _ in range(ctx.n(700, 12000)):
+        bases.append(("media", G.gen_media(rng, plain=True, features=ctx.features)[0], "generated"))
+    for _ in range(ctx.n(500, 9000)):
+        bases.append(("master", G.gen_master(rng, plain=True, features=ctx.features, fr3=True)[0], "generated"))
+    for _ in range(ctx.n(100, 2000)):
+        bases.append(("media", G.gen_media(rng, features=ctx.features)[0], "generated-layout"))
+    bi = 0
+    for op, text, src in bases:
+        lines = c12_logical(text)
+        if not lines or lines[0] != "#EXTM3U":
+            continue
+        bi += 1
+        gid = "b%d" % bi
+        cases.append(mk(op, text, group="base-" + src, meta={"base": gid, "role": "base"}))
+        # single transformations, then compositions
+        nsingle = ctx.n(3, 6)
+        for o in rng.sample(C12_OPS, nsingle):
+            cases.append(mk(op, c12_variant(rng, lines, op == "media", {o}), group="single:" + o, meta={"base": gid, "role": "variant", "ops": [o]}))
+        for _ in range(ctx.n(2, 6)):
+            ops = set(rng.sample(C12_OPS, rng.randint(2, len(C12_OPS))))
+            cases.append(mk(op, c12_variant(rng, lines, op == "media", ops), group="composition", meta={"base": gid, "role": "variant", "ops": sorted(ops)}))
+        t2, tags = c12_insert_unknown(rng, lines)
+        cases.append(mk(op, t2, group="unknown-tags", meta={"base": gid, "role": "unknown", "tags": tags}))
+    return cases
+
+
+def c12_content(raw):
+    r = C.Resp(raw)
+    if r.status != "ok":
+        return (r.status,)
+    return ("ok", r.obs, r.get("D"), r.get("A"), r.get("E"))
+
+
+def c12_unknown_field(obs):
+    f = split_top(obs[2:-1], ";")
+    idx = 9 if obs.startswith("M{") else 6
+    unk = [C.unhx(x[1:]) for x in split_top(f[idx][1:-1]) if x]
+    f[idx] = "[]"
+    return obs[:2] + ";".join(f) + "}", unk
+
+
+def c12_oracle(ctx, cases, impl, model):
+    fails = []
+    base = {}
+    for c, a in zip(cases, impl):
+        if c.meta.get("role") == "base":
+            base[c.meta["base"]] = (c, a)
+    for c, a in zip(cases, impl):
+        role = c.meta.get("role")
+        if role == "base":
+            continue
+        bc, ba = base[c.meta["base"]]
+        rb, ra = C.Resp(ba), C.Resp(a)
+        if ra.status == "panic":
+            fails.append(dict(describe(c.line, a), what="panicked", law="no-panic")); continue
+        if rb.status != "ok":
+            continue      # the property speaks about accepted texts
+        if role == "variant":
+            if c12_content(a) != c12_content(ba):
+                fails.append(dict(describe(c.line, a), what="the transformed text (%s) does not parse to the value of the original" % ",".join(c.meta["ops"]),
+                                  law="invariance", ops=c.meta["ops"], original=bc.payload, original_result=ba[:3000]))
+        else:
+            if ra.status != "ok":
+                fails.append(dict(describe(c.line, a), what="inserting unknown #EXT tags made the playlist unacceptable", law="unknown-tags", original=bc.payload)); continue
+            o1, u1 = c12_unknown_field(ra.obs)
+            o0, u0 = c12_unknown_field(rb.obs)
+            if o1 != o0 or (ra.get("D"), ra.get("A")) != (rb.get("D"), rb.get("A")):
+                fails.append(dict(describe(c.line, a), what="inserting unknown #EXT tags changed more than the list of unknown tags", law="unknown-tags", original=bc.payload, original_result=ba[:3000])); continue
+            # the list is the old one with the new tags merged in, source order
+            if sorted(u1) != sorted(u0 + c.meta["tags"]) or [x for x in u1 if x in c.meta["tags"]] != c.meta["tags"] or [x for x in u1 if x not in c.meta["tags"]] != u0:
+                fails.append(dict(describe(c.line, a), what="the unknown-tag list is not the source-order list of the unknown lines", law="unknown-tags", original=bc.payload))
+    return fails
+
+
+PROPS["C12"] = {
+    "build": c12_build, "gate": {"status", "obs", "D", "A"}, "oracle": c12_oracle,
+    "nontrivial": lambda c, a: a.startswith("ok") and c.meta.get("role") != "base",
+    "rule": "accepted base texts (repository fixtures, generated media and master playlists) and, for each, single and composed transformations written independently of the model: attribute shuffle, unknown attributes, blanks around = and , , relative order of playlist-level tags, order of the non-key segment tags, comment lines, redundant EXT-X-VERSION tags, blank lines, line padding (ASCII and Unicode white space), CRLF, trailing white space / missing final newline; plus insertion of unknown #EXT tags; non-trivial = accepted transformed text",
+    "explanation": "theorems (Props/C12.lean): media_neutral_lines / master_neutral_lines (comments, EXT-X-VERSION), media_rearrangement / master_rearrangement (any sequence of swaps of adjacent independent lines: playlist-level tags among each other and with segment tags, non-key segment tags among each other; mediaStep_comm is checked for all 23x23 line kinds), media_unknown_tags / master_unknown_tags, the closed forms of all eight attribute loops (Proofs/AttrFold.lean: every field is a function of the last value written for its name) giving *_attr_layout for MAP, DATERANGE incl. client attributes, START, MEDIA, SESSION-DATA, KEY incl. METHOD=NONE, SESSION-KEY, StreamData under AttrEquiv (permutation without repeated names, unknown attributes free), attrEquiv_padded via attrPairs_render (blanks around names, =, values and ,), media_lines_layout / master_lines_layout + lines_seen, crlf_irrelevant, blank_lines_irrelevant, line_padding_irrelevant, trailing_space_irrelevant (the complete string-level parsers depend on the text only through its trimmed non-empty lines). Tie: every base and every transformed text must give the same status and observation on library and model; oracle (implementation only): each transformed text parses to the observation of its original.",
+    "assumptions": ["the transformations of the oracle stream are written in Python from RFC 8216 section 4, not taken from the model"],
+}
